@@ -4,6 +4,8 @@ package main
 
 import (
 	"errors"
+	"fmt"
+	"net"
 	"io"
 	"math/rand"
 	"sync"
@@ -134,6 +136,12 @@ func (s *stub) Read(p []byte) (int, error) {
 	case "err":
 		s.run.log("aclose", s.side, nil, "err")
 		return 0, errBoom
+	case "nclosed": // the transport reports the stream as closed (nobody called Close on this stub)
+		s.run.log("aclose", s.side, nil, "err")
+		return 0, fmt.Errorf("stub: read: %w", net.ErrClosed)
+	case "pclosed":
+		s.run.log("aclose", s.side, nil, "err")
+		return 0, io.ErrClosedPipe
 	}
 	<-s.closed
 	return 0, io.ErrClosedPipe
@@ -250,7 +258,7 @@ func (a *app) reader() {
 func runBiScenario(id, run int) bool {
 	r := verifkit.Rand(int64(1000003*id + 40))
 	b := &biRun{rec: &recorder{}, crew: newCrew()}
-	fams := []string{"oneway", "duplex", "revloss", "impatient", "stubs", "stubs", "mixed", "oneway", "duplex", "stubs"}
+	fams := []string{"oneway", "duplex", "revloss", "impatient", "stubs", "stubs", "mixed", "oneway", "duplex", "stubs", "ownerclose", "stubs"}
 	fam := fams[id%len(fams)]
 	cp := capChoices[r.Intn(len(capChoices))]
 	var s1, s2 io.ReadWriteCloser // what Pipe gets
@@ -321,8 +329,8 @@ func runBiScenario(id, run int) bool {
 		a2, n2 := mkApp(2, r.Intn(40))
 		apps, s1, s2 = []*app{a1, a2}, n1, n2
 	case "stubs":
-		ends := []string{"eof", "err", "hang"}
-		e1, e2 := ends[r.Intn(3)], ends[r.Intn(3)]
+		ends := []string{"eof", "err", "hang", "nclosed", "pclosed"}
+		e1, e2 := ends[r.Intn(len(ends))], ends[r.Intn(len(ends))]
 		f1, f2 := -1, -1
 		if r.Intn(3) == 0 {
 			f1 = r.Intn(4)
@@ -331,15 +339,31 @@ func runBiScenario(id, run int) bool {
 			f2 = r.Intn(4)
 		}
 		if e1 == "hang" && e2 == "hang" { // something must end (a failing write may never be attempted)
+			pick := []string{"eof", "err", "nclosed", "pclosed"}[r.Intn(4)]
 			if r.Intn(2) == 0 {
-				e1 = ends[r.Intn(2)]
+				e1 = pick
 			} else {
-				e2 = ends[r.Intn(2)]
+				e2 = pick
 			}
 		}
 		st1, st2 := mkStub(1, r.Intn(40), e1, f1), mkStub(2, r.Intn(40), e2, f2)
 		s1, s2 = st1, st2
 		meta["ends"] = []any{e1, e2, f1, f2}
+	case "ownerclose": // the owner of stream `first` closes the very stream it handed to Pipe (session aborted); the far ends stay idle
+		a1, n1 := mkApp(1, 0)
+		a2, n2 := mkApp(2, 0)
+		a1.noClose, a2.noClose = true, true
+		as := []*app{a1, a2}
+		if r.Intn(2) == 0 { // some bytes flow first
+			as[2-first].chunks = chunked(r, payload(3-first, 1+r.Intn(20)), 1+r.Intn(cp+4))
+		}
+		apps, s1, s2 = as, n1, n2
+		own := []io.ReadWriteCloser{n1, n2}[first-1]
+		delay := r.Intn(4)
+		time.AfterFunc(time.Duration(5+10*delay)*time.Millisecond, func() {
+			b.log("aclose", first, nil, "err") // from now on Pipe's Read of that stream fails with a closed-pipe error
+			own.Close()
+		})
 	case "mixed": // an application on side `first`, a stub sink on the other side
 		a, n := mkApp(first, r.Intn(50))
 		st := mkStub(3-first, r.Intn(20), "hang", -1)
